@@ -107,8 +107,48 @@ def blackbox(ck, rounds):
     return n
 
 
+def name_clash(ck):
+    """`uniquely`: a loaded project that reuses the ROOT's name (directly imported or one import deeper) must be refused, the
+    same way on every invocation (otherwise `t` / `app::t` mean the root's t in some runs and the other project's in others)"""
+    import os
+    import vf
+    d = vf.scratch_dir('C19clash')
+    layouts = {
+        'direct': {'': 'name: app\nimports:\n  app: sub\ntargets:\n  t:\n    build: echo ROOT >> %(log)s\n',
+                   'sub': 'name: app\ntargets:\n  t:\n    build: echo OTHER >> %(log)s\n'},
+        'deeper': {'': 'name: app\nimports:\n  lib: lib\ntargets:\n  t:\n    build: echo ROOT >> %(log)s\n',
+                   'lib': 'name: lib\nimports:\n  app: ../vendor/app\ntargets:\n  u:\n    build: echo LIB >> %(log)s\n',
+                   'vendor/app': 'name: app\ntargets:\n  t:\n    build: echo OTHER >> %(log)s\n'},
+    }
+    for lname, files in layouts.items():
+        root = os.path.join(d, lname)
+        log = os.path.join(root, 'runs.log')
+        for rel, text in files.items():
+            os.makedirs(os.path.join(root, rel), exist_ok=True)
+            with open(os.path.join(root, rel, 'zinoma.yml'), 'w') as f:
+                f.write(text % {'log': log})
+        outcomes = set()
+        for i in range(10 if ck.tier == 'quick' else 40):
+            for req in (['t'], ['app::t']):
+                if os.path.exists(log):
+                    os.remove(log)
+                rc, out, err = vf.sh([vf.ZINOMA, '-p', root] + req, timeout=60, env={'RUST_BACKTRACE': '0'})
+                ran = open(log).read().split() if os.path.exists(log) else []
+                outcomes.add((tuple(req), rc != 0, tuple(ran)))
+        ck.count(('clash', lname), sample={'layout': lname, 'outcomes': sorted(map(str, outcomes))})
+        ck.tally('clash:' + lname)
+        accepted = [o for o in outcomes if not o[1]]
+        if accepted:
+            ck.violation({'kind': 'name-clash', 'layout': lname, 'files': files,
+                          'what': 'a project reusing the root project name `app` was accepted; observed (request, refused, scripts run): %s'
+                                  % sorted(map(str, outcomes)),
+                          'replay': 'create the files of the layout, run `zinoma t` and `zinoma app::t` repeatedly'}, found_input=True)
+    vf.sh(['rm', '-rf', d])
+
+
 def run(ck):
     quick = ck.tier == 'quick'
+    name_clash(ck)
     ck.rule('resolve/names: project sets (1-3 projects, named/unnamed root, mutual imports) whose target names come from a pool of 5 '
             '(heavy overlap across projects), requests: both spellings of a root target plus noise, names acceptable only in '
             'another spelling/project, random accepted names, none; 15% with a malformed reference; non-trivial = distinct '
